@@ -1,4 +1,5 @@
 import PymtlVerif.Proofs.Names
+import PymtlVerif.Proofs.NamesMangle
 /-!
 # C13 — translation is deterministic and module names never alias different hardware
 
@@ -17,6 +18,12 @@ What is proved here
   `uniqueName_idShape` (when the emitted name is a legal identifier).
 * determinism of the model's orders: `post_perm_invariant`, `portOrder_perm_invariant`, `blockOrder_perm_invariant`
   (the emitted order does not depend on the order in which children / ports / blocks are enumerated).
+
+* identifiers made by `__`-joining user names (flattened wires, instance names: `flatId`) and struct type names
+  (`Struct.get_full_name` / `get_name`): `flatId_inj`, `flatIds_nodup`, `flatCollisions_eq_nil_iff` (under `okName`:
+  a user name is not empty, does not start with `_` or a digit, contains no `__`), `structFullName_inj`,
+  `structName_inj` (struct types without nested structs), and the witnesses without these conditions:
+  `flatId_collision_witnesses`, `structName_collision_witnesses`, `struct_collision_changes_layout`.
 
 What is NOT a theorem: independence of the text from `PYTHONHASHSEED` and from earlier translations in the same
 process is a property of CPython and of the whole translator; it is covered by the correspondence check only
@@ -500,6 +507,174 @@ theorem blockOrder_perm_invariant (comb comb' seq seq' : List String)
   unfold blockOrder
   rw [sortByKey_perm_eq id _ _ hc (fun a _ b _ h => h), sortByKey_perm_eq id _ _ hs (fun a _ b _ h => h)]
 
+/-! ## identifiers made by `__`-joining user names; struct type names
+
+`okName` (Model/Names.lean): not empty, first character neither `_` nor a digit, no `__` inside; a trailing `_` is
+allowed (`in_`, `type_`). pymtl3 guarantees the first two clauses for hardware objects (Python identifiers; an attribute
+whose name starts with `_` is not a hardware object); the third is the user's obligation and is what the findings
+"duplicate flattened identifier" are about. -/
+
+/-- **Different hardware objects of a module never get the same identifier**: `"__".join` is injective on paths whose
+user names are well formed (list indices are decimal numbers). -/
+theorem flatId_inj (p q : List Seg) (hp : ∀ s ∈ p, s.ok = true) (hq : ∀ s ∈ q, s.ok = true)
+    (h : flatId p = flatId q) : p = q :=
+  flatId_inj_aux p q hp hq (by rw [h])
+
+/-- … hence a module whose objects have pairwise different paths declares every identifier once. -/
+theorem flatIds_nodup (ps : List (List Seg)) (hok : ∀ p ∈ ps, ∀ s ∈ p, s.ok = true) (hd : ps.Nodup) :
+    (ps.map flatId).Nodup := by
+  induction ps with
+  | nil => simp
+  | cons p ps ih =>
+    have hd' := List.nodup_cons.mp hd
+    simp only [List.map_cons, List.nodup_cons, List.mem_map, not_exists, not_and]
+    refine ⟨?_, ih (fun q hq => hok q (List.mem_cons_of_mem _ hq)) hd'.2⟩
+    intro q hq e
+    have := flatId_inj q p (hok q (List.mem_cons_of_mem _ hq)) (hok p (by simp)) e
+    exact hd'.1 (this ▸ hq)
+
+/-- the collision list the harness asks for is empty exactly when every identifier is declared once -/
+theorem flatCollisions_eq_nil_iff (ps : List (List Seg)) : flatCollisions ps = [] ↔ (ps.map flatId).Nodup := by
+  simp only [flatCollisions, List.filter_eq_nil_iff, decide_eq_true_eq, List.nodup_iff_count]
+  constructor
+  · intro h a
+    by_cases ha : a ∈ ps.map flatId
+    · exact Nat.le_of_not_lt (h a ha)
+    · rw [List.count_eq_zero_of_not_mem ha]; omega
+  · intro h a _
+    exact Nat.not_lt.mpr (h a)
+
+theorem flatCollisions_nil_of_ok (ps : List (List Seg)) (hok : ∀ p ∈ ps, ∀ s ∈ p, s.ok = true) (hd : ps.Nodup) :
+    flatCollisions ps = [] :=
+  (flatCollisions_eq_nil_iff ps).mpr (flatIds_nodup ps hok hd)
+
+/-- Without the conditions on user names the identifiers collide (each pair replayed on the real translators by the
+harness): a name containing `__` (child `a` with port `b__c` / child `a__b` with port `c`), a name that looks like a list
+index (`a[0]` / `a__0`), a name starting with `_` after a name ending in `_` (port `a_` with struct field `b` / port `a`
+with field `_b`, Yosys backend), a name starting with a digit. -/
+theorem flatId_collision_witnesses :
+    (flatId [.name "a", .name "b__c"] = flatId [.name "a__b", .name "c"] ∧ okName "b__c" = false) ∧
+    (flatId [.name "a", .idx 0] = flatId [.name "a__0"] ∧ okName "a__0" = false) ∧
+    (flatId [.name "a_", .name "b"] = flatId [.name "a", .name "_b"] ∧ okName "_b" = false ∧ okName "a_" = true) ∧
+    (flatId [.name "a", .name "0"] = flatId [.name "a", .idx 0] ∧ okName "0" = false) := by
+  decide
+
+theorem cls_cancel (c c' : String) (X X' : List Char) (hc : okName c = true) (hc' : okName c' = true)
+    (hX : X.head? ≠ some '_') (hX' : X'.head? ≠ some '_')
+    (h : c.toList ++ '_' :: '_' :: X = c'.toList ++ '_' :: '_' :: X') : c = c' ∧ X = X' := by
+  obtain ⟨e1, e2⟩ := seg_cancel _ _ _ _ ((okNameL_iff _).mp hc).2 ((okNameL_iff _).mp hc').2
+    (Or.inr ⟨X, rfl, hX⟩) (Or.inr ⟨X', rfl, hX'⟩) h
+  simp only [List.cons.injEq, true_and] at e2
+  exact ⟨String.toList_inj.mp e1, e2⟩
+
+theorem fieldStrL_head_ne (fs : List (String × DT)) (h : flatStruct fs = true) : (fieldStrL fs).head? ≠ some '_' := by
+  obtain ⟨hne, hf⟩ := (flatStruct_iff fs).mp h
+  cases fs with
+  | nil => exact absurd rfl hne
+  | cons f fs =>
+    obtain ⟨n, t⟩ := f
+    obtain ⟨c, r, e, hc, _⟩ := fieldStrL_head n t fs (hf (n, t) (by simp)).1
+    rw [e]
+    simp only [List.head?_cons, ne_eq, Option.some.injEq]
+    exact hc
+
+theorem struct_fullName_toList (c : String) (fs : List (String × DT)) (h : flatStruct fs = true) :
+    (DT.fullName (.struct c fs)).toList = c.toList ++ '_' :: '_' :: fieldStrL fs := by
+  simp only [DT.fullName, String.toList_append, fieldStr_toList fs ((flatStruct_iff fs).mp h).2]
+  simp
+
+/-- **Struct types without nested structs never share a full name**: class names and field names well formed, every
+field a vector or a list of vectors. (`structName_collision_witnesses`: none of the conditions can be dropped, and with a
+nested struct the name is ambiguous even for well-formed names.) -/
+theorem structFullName_inj (c c' : String) (fs fs' : List (String × DT))
+    (hc : okName c = true) (hc' : okName c' = true) (hf : flatStruct fs = true) (hf' : flatStruct fs' = true)
+    (h : DT.fullName (.struct c fs) = DT.fullName (.struct c' fs')) : c = c' ∧ fs = fs' := by
+  have h2 := congrArg String.toList h
+  rw [struct_fullName_toList c fs hf, struct_fullName_toList c' fs' hf'] at h2
+  obtain ⟨e1, e2⟩ := cls_cancel c c' _ _ hc hc' (fieldStrL_head_ne fs hf) (fieldStrL_head_ne fs' hf') h2
+  exact ⟨e1, fieldStrL_inj fs fs' ((flatStruct_iff fs).mp hf).2 ((flatStruct_iff fs').mp hf').2 e2⟩
+
+/-- The same for the emitted name (`Struct.get_name`: the full name, or class name + `__` + hash of the field string when
+the full name has 64 characters or more), for a hash without collisions whose digests contain no `_`. -/
+theorem structName_inj (H : String → String) (hH : ∀ s s', H s = H s' → s = s') (hhex : ∀ s, '_' ∉ (H s).toList)
+    (c c' : String) (fs fs' : List (String × DT))
+    (hc : okName c = true) (hc' : okName c' = true) (hf : flatStruct fs = true) (hf' : flatStruct fs' = true)
+    (h : structName H c fs = structName H c' fs') : c = c' ∧ fs = fs' := by
+  have hashed : ∀ (c : String) (fs : List (String × DT)),
+      (c ++ "__" ++ H (fieldStr fs)).toList = c.toList ++ '_' :: '_' :: (H (fieldStr fs)).toList := by
+    intro c fs; simp [String.toList_append]
+  have hhead : ∀ s, (H s).toList.head? ≠ some '_' := by
+    intro s e
+    apply hhex s
+    cases hl : (H s).toList with
+    | nil => rw [hl] at e; simp at e
+    | cons x r => rw [hl] at e; simp only [List.head?_cons, Option.some.injEq] at e; rw [e]; simp
+  have hwf := ((flatStruct_iff fs).mp hf)
+  have hwf' := ((flatStruct_iff fs').mp hf')
+  unfold structName at h
+  simp only at h
+  by_cases l1 : (DT.fullName (.struct c fs)).length < 64
+  · by_cases l2 : (DT.fullName (.struct c' fs')).length < 64
+    · rw [if_pos l1, if_pos l2] at h
+      exact structFullName_inj c c' fs fs' hc hc' hf hf' h
+    · rw [if_pos l1, if_neg l2] at h
+      exfalso
+      have h2 := congrArg String.toList h
+      rw [struct_fullName_toList c fs hf, hashed] at h2
+      obtain ⟨_, e2⟩ := cls_cancel c c' _ _ hc hc' (fieldStrL_head_ne fs hf) (hhead _) h2
+      apply hhex (fieldStr fs')
+      rw [← e2]
+      exact fieldStrL_has_underscore fs hwf.1
+  · by_cases l2 : (DT.fullName (.struct c' fs')).length < 64
+    · rw [if_neg l1, if_pos l2] at h
+      exfalso
+      have h2 := congrArg String.toList h
+      rw [struct_fullName_toList c' fs' hf', hashed] at h2
+      obtain ⟨_, e2⟩ := cls_cancel c c' _ _ hc hc' (hhead _) (fieldStrL_head_ne fs' hf') h2
+      apply hhex (fieldStr fs)
+      rw [e2]
+      exact fieldStrL_has_underscore fs' hwf'.1
+    · rw [if_neg l1, if_neg l2] at h
+      have h2 := congrArg String.toList h
+      rw [hashed, hashed] at h2
+      obtain ⟨e1, e2⟩ := cls_cancel c c' _ _ hc hc' (hhead _) (hhead _) h2
+      have e3 : fieldStr fs = fieldStr fs' := hH _ _ (String.toList_inj.mp e2)
+      have e4 := congrArg String.toList e3
+      rw [fieldStr_toList fs hwf.2, fieldStr_toList fs' hwf'.2] at e4
+      exact ⟨e1, fieldStrL_inj fs fs' hwf.2 hwf'.2 e4⟩
+
+/-- `Struct.get_full_name` is NOT injective beyond that (each pair replayed on the real `get_rtlir_dtype` /
+translators by the harness). With well-formed names and a nested struct: (1) the fields after a nested struct are
+indistinguishable from its own last fields; (2) `f` of type `My_S` / `f_My` of type `S`; (5) a list of structs / a
+struct with a list field. Without nesting but with `__` in a name: (3) a field name, (4) a class name. -/
+theorem structName_collision_witnesses :
+    -- (1) Outer{ i: Inner{x:8, y:8}, z:4 }  /  Outer{ i: Inner{x:8}, y:8, z:4 }
+    ((DT.struct "Outer" [("i", .struct "Inner" [("x", .vec 8), ("y", .vec 8)]), ("z", .vec 4)]).fullName =
+     (DT.struct "Outer" [("i", .struct "Inner" [("x", .vec 8)]), ("y", .vec 8), ("z", .vec 4)]).fullName) ∧
+    -- (2) C{ f: My_S{g:8} }  /  C{ f_My: S{g:8} }
+    ((DT.struct "C" [("f", .struct "My_S" [("g", .vec 8)])]).fullName =
+     (DT.struct "C" [("f_My", .struct "S" [("g", .vec 8)])]).fullName) ∧
+    -- (3) S{ a:4, b:8 }  /  S{ a_4__b: 8 }
+    ((DT.struct "S" [("a", .vec 4), ("b", .vec 8)]).fullName = (DT.struct "S" [("a_4__b", .vec 8)]).fullName ∧
+      okName "a_4__b" = false) ∧
+    -- (4) A{ b:8, c:4 }  /  A__b_8{ c:4 }
+    ((DT.struct "A" [("b", .vec 8), ("c", .vec 4)]).fullName = (DT.struct "A__b_8" [("c", .vec 4)]).fullName ∧
+      okName "A__b_8" = false) ∧
+    -- (5) C{ f: [D{g:8}] * 2 }  /  C{ f: D{ g: [Bits8] * 2 } }
+    ((DT.struct "C" [("f", .arr [2] (.struct "D" [("g", .vec 8)]))]).fullName =
+     (DT.struct "C" [("f", .struct "D" [("g", .arr [2] (.vec 8))])]).fullName) := by
+  decide
+
+/-- (6) A class name that ends in `_<width>` makes a nested struct look like a vector field:
+`C{ f: My_8{g:4} }` (4 bits) and `C{ f_My: 8, g: 4 }` (12 bits) share a name and do not even have the same width. -/
+theorem struct_collision_changes_layout :
+    (DT.struct "C" [("f", .struct "My_8" [("g", .vec 4)])]).fullName =
+      (DT.struct "C" [("f_My", .vec 8), ("g", .vec 4)]).fullName ∧
+    (DT.struct "C" [("f", .struct "My_8" [("g", .vec 4)])]).leafWidths = [4] ∧
+    (DT.struct "C" [("f_My", .vec 8), ("g", .vec 4)]).leafWidths = [8, 4] ∧
+    okName "My_8" = true ∧ okName "f_My" = true := by
+  decide
+
 /-! ## non-vacuity -/
 
 /-- a table the checker accepts … -/
@@ -534,6 +709,21 @@ example : translateChecked [("A", 1), ("A", 2), ("T", 0)] = .error "A" := by rfl
 example : translateChecked [("A", 1), ("A", 1), ("T", 0)] = .ok [("A", 1), ("T", 0)] := by rfl
 /-- children are visited in `repr` order (`s.x[10]` before `s.x[2]`), whatever order they are given in -/
 example : (Tree.node "s" "T" 0 [.node "s.x[2]" "B" 2 [], .node "s.x[10]" "A" 1 []]).post = [("A", 1), ("B", 2), ("T", 0)] := by
+  decide
+
+/-- well-formed names exist (a trailing `_` is fine), the hypotheses of `flatId_inj` / `flatIds_nodup` are satisfiable,
+and the conclusion is not trivial: three different paths, three different identifiers -/
+example : okName "in_" = true ∧ okName "type_" = true ∧ okName "a_0" = true ∧ okName "x1" = true := by decide
+example : (∀ p ∈ [[Seg.name "a", .idx 0, .name "in_"], [.name "a", .idx 1, .name "in_"], [.name "a_0"]],
+    ∀ s ∈ p, s.ok = true) ∧
+    [[Seg.name "a", .idx 0, .name "in_"], [.name "a", .idx 1, .name "in_"], [.name "a_0"]].map flatId =
+      ["a__0__in_", "a__1__in_", "a_0"] := by decide
+example : flatCollisions [[.name "a", .name "b__c"], [.name "x"], [.name "a__b", .name "c"]] = ["a__b__c", "a__b__c"] := by
+  decide
+/-- a struct type in the scope of `structFullName_inj` (the memory request message of the stdlib has this shape) -/
+example : flatStruct [("type_", .vec 4), ("opaque", .vec 8), ("data", .arr [2, 3] (.vec 32))] = true ∧ okName "MemReqMsg" = true := by
+  decide
+example : (DT.struct "Req" [("type_", .vec 4), ("data", .arr [2, 3] (.vec 32))]).fullName = "Req__type__4__data_32x2x3" := by
   decide
 
 end PV.C13
